@@ -19,7 +19,7 @@ import (
 //                         positions only. Otherwise `type T [2]T` is accepted and later passes recurse without end.
 
 func c08Extra(c *Ctx) {
-	p := c.Load(LoadOpt{Light: true}, "./internal/parser", "./internal/parser/w2parser", "./internal/scanner", "./internal/wat/parser", "./internal/wat/scanner", "./internal/native/parser", "./internal/types")
+	p := c.Load(LoadOpt{Light: true}, "./internal/parser", "./internal/parser/w2parser", "./internal/scanner", "./internal/wat/parser", "./internal/wat/scanner", "./internal/native/parser", "./internal/native/scanner", "./internal/types")
 	n := 0
 	for rel, pk := range p.All {
 		if strings.HasSuffix(rel, "internal/types") {
@@ -28,9 +28,18 @@ func c08Extra(c *Ctx) {
 		n += c08ArrayBounds(c, p, pk)
 	}
 	c.Min("fixed-array-bound", "guarded fixed-array index sites in the front ends", n, 2)
+	nf := 0
+	for _, rel := range []string{"internal/scanner", "internal/wat/scanner", "internal/native/scanner"} {
+		if pk := p.MustPkg("offset-frame", rel); pk != nil {
+			nf += c08OffsetFrames(c, p, pk, rel)
+		}
+	}
+	c.Min("offset-frame", "indices and error positions with a determined frame", nf, 20)
 	if tp := p.MustPkg("value-cycle-detection", "internal/types"); tp != nil {
 		c08ValueCycles(c, p, tp)
+		c08LookupNil(c, p, tp)
 	}
+	c08CommentMarkers(c)
 }
 
 func arrayLen(t types.Type) (int64, bool) {
